@@ -46,7 +46,7 @@ class Overlap1D(Case):
             return cs
         Case.__init__(s, f'ov1{"n" if neg else ""}{"" if noalias else "s"}{"t" if twice else ""}_{SHORT[T]}_{N}_{n}_{OPN[op]}_{rhs}', [a] + extra + sc, k, r,
                       desc=f'{stmt} on Tensor<{T},{N}>, extent {n}', pre=pre)
-        s.dom = 'uf' if T in FT else 'bits'; s.max_paths = 600; s.timeout = 30
+        s.dom = 'uf' if T in FT else 'bits'; s.uf_int = T in IT; s.max_paths = 600; s.timeout = 30
 
 
 class Overlap2D(Case):
@@ -63,7 +63,18 @@ class Overlap2D(Case):
             if not noalias: cs += [V[x + '1'] == V[x + '2'] for x in 'flsght']
             return cs
         Case.__init__(s, f'ov2{"" if noalias else "s"}_{SHORT[T]}_{M}x{N}_{m}x{n}_{OPN[op]}', [a] + sc, k, r, desc=f'2-D overlapping view assignment {op} on {M}x{N}, extent {m}x{n} {T}', pre=pre)
-        s.dom = 'uf' if T in FT else 'bits'; s.max_paths = 600; s.timeout = 30
+        s.dom = 'uf' if T in FT else 'bits'; s.uf_int = T in IT; s.max_paths = 600; s.timeout = 30
+
+
+class FixSelf2D(Case):
+    """A(all, fseq<f,l>) = g(A(all, fseq<f,l>)) without noalias (perfect overlap), expression right-hand side, widths with SIMD tails"""
+    def __init__(s, T, M, N, f, l, op):
+        a = Buf('a', T, M * N, 'inout'); v = f'A(all,fseq<{f},{l}>())'
+        k = f'Tensor<{T},{M},{N}> A(a); {v} {op} {v} + {v}; ' + copy_out('A', 'a', M * N)
+        dbl = 't_+t_' if T in FT else f'({T})(({UT[T]})t_+({UT[T]})t_)'
+        r = f'for(int i=0;i<{M};++i) for(int j={f};j<{l};++j) {{ {T} t_ = a[i*{N}+j]; ' + apply_op(T, op, f'a[i*{N}+j]', dbl) + ' }'
+        Case.__init__(s, f'ovself2_{SHORT[T]}_{M}x{N}_{f}_{l}_{OPN[op]}', [a], k, r, desc=f'{v} {op} {v}+{v} on {M}x{N} {T}')
+        s.dom = 'uf' if T in FT else 'bits'; s.uf_int = T in IT
 
 
 class FixOverlap(Case):
@@ -79,7 +90,7 @@ class FixOverlap(Case):
             return []
         nm = lambda sp: '_'.join(str(x) for x in sp[1:])
         Case.__init__(s, f'ovf{"" if noalias else "s"}_{SHORT[T]}_{N}_{nm(sp1)}__{nm(sp2)}_{OPN[op]}', [a], k, r, desc=f'A({spec_cpp(sp1)}){na} {op} A({spec_cpp(sp2)}) on Tensor<{T},{N}>', pre=pre)
-        s.dom = 'uf' if T in FT else 'bits'
+        s.dom = 'uf' if T in FT else 'bits'; s.uf_int = T in IT
 
 
 OPS = ['=', '+=', '-=', '*=', '/=']
@@ -105,6 +116,8 @@ def cases(tier, cfg, seed):
             for op in (('=', '*=') if tier == 'quick' else OPS):
                 out.append(FixOverlap(T, 9, sp1, sp2, op))
         out.append(FixOverlap(T, 9, fs(2, 6), fs(2, 6), '+=', noalias=False))
+        for (f, l) in ((1, 6), (0, 7), (1, 10), (2, 19)):
+            for op in ('=', '+='): out.append(FixSelf2D(T, 2, 20, f, l, op))
     return out
 
 
